@@ -44,6 +44,10 @@ def set_calls(fn):
             k = n.args[0]
             key = k.value if isinstance(k, ast.Constant) else '*' + src(k)
             out.setdefault(src(n.func.value), {})[key] = n.args[1]
+        # x.attrib.update(d): set(k, v) for every item of d
+        if isinstance(n, ast.Call) and isinstance(n.func, ast.Attribute) and n.func.attr == 'update' and len(n.args) == 1 and not n.keywords \
+                and isinstance(n.func.value, ast.Attribute) and n.func.value.attr == 'attrib':
+            out.setdefault(src(n.func.value.value), {})['*items of ' + src(n.args[0])] = n.args[0]
     return out
 
 
